@@ -19,9 +19,17 @@ def keyx_table(b9seed):
     pyenv.install_fake_boot9(b9seed)
     from pyctr.crypto import engine as E
     kx = {0x2C: int.from_bytes(E._b9_keyblob['retail'][0x170:0x180], 'big')}
-    for s, (retail, dev) in E._base_key_x.items():
-        kx[s] = retail
+    kx.update(RETAIL_KEY_X)
     return kx
+
+
+# KeyX of the NCCH slots that are not in the boot ROM (retail), as published (3dbrew: AES Registers / NCCH): a table of the harness's
+# own, so that a mix-up in the library's table shows
+RETAIL_KEY_X = {
+    0x25: 0xCEE7D8AB30C00DAE850EF5E382AC5AF3,       # 7.x
+    0x18: 0x82E9C9BEBFB8BDB875ECC0A07D474374,       # New3DS 9.3
+    0x1B: 0x45AD04953992C7C893724A9A7BCE6182,       # New3DS 9.6
+}
 
 
 EXEFS_NAMES = ['.code', 'icon', 'banner', 'logo', 'extra', 'a', 'b.c', 'data0', 'zz', 'x1']
@@ -80,6 +88,8 @@ def build(spec):
             # contents given outright (hex), e.g. a compressed .code
             b['exefs_files'] = [(nm, bytes.fromhex(spec['exefs_data'][nm]) if nm in spec['exefs_data'] else d) for nm, d in b['exefs_files']]
         b['exefs_slots'] = spec['slots']
+        if spec.get('exefs_overlap'):
+            b['exefs_overlap'] = spec['exefs_overlap']
     if spec['romfs']:
         tree = R.random_tree(rng, max_depth=2, max_children=3, max_file=200, unicode_names=False)
         lv3, _ = R.pack_lv3(tree)
@@ -100,6 +110,7 @@ def open_reader(image, kwargs, start=0, **extra):
     from pyctr.type.ncch import NCCHReader
     seeddb._seeds.clear()
     seeddb._loaded_from_default_paths = True     # never look for a seeddb.bin on disk
-    bio = io.BytesIO(b'\xA5' * start + image)
+    # the container sits inside a larger file: bytes in front (the reader is handed the file standing at the container) and behind
+    bio = io.BytesIO(b'\xA5' * start + image + b'\x5C\xC5' * (0x180 if start else 0))
     bio.seek(start)
     return NCCHReader(bio, **kwargs, **extra), bio
